@@ -11,12 +11,13 @@ def declare(S: Spec):
     OpState = Enum("OperatorState")
     Prio = Enum("Priority")
     S.cls("Node", {"id": Ref("UUID"), "children": List(Ref("Node")), "parents": List(Ref("Node"))},
-          immutable=("id", "children", "parents"), owned=("children", "parents"))
+          immutable=("id", "children", "parents"), owned=("id", "children", "parents"))
+    S.cls("UUID", {})
     S.cls("DAG", {"dag_id": Ref("UUID"), "node_ids": List(Ref("UUID")), "node_lookup": Dict(Ref("UUID"), Ref("Node")),
                   "roots": List(Ref("Node")), "iter": Ref("DAGIterator")},
           immutable=("dag_id", "node_ids", "node_lookup", "roots"))
     S.cls("DAGIterator", {"dag": Ref("DAG"), "returned": Set(Ref("UUID")), "queue": List(Ref("Node"))},
-          immutable=("dag", "returned", "queue"))
+          immutable=("dag", "returned", "queue"), owned=("returned", "queue"))
     S.cls("Segment", {"baseline_cpu_seconds": REAL, "memory_gb": Opt(REAL), "storage_read_gb": REAL, "scaling_func": Fn("scaling")},
           immutable=("baseline_cpu_seconds", "memory_gb", "storage_read_gb", "scaling_func"))
     S.cls("Operator", {"values": List(Ref("Segment")), "pipeline": Ref("Pipeline")}, immutable=("values", "pipeline"))
